@@ -26,7 +26,7 @@ META = {
 D = datetime.date
 OPTS = [(True, False), (False, False), (True, True), (False, True)]
 CATS = ('TF', 'XC', 'ROAD')
-BOUNDARY_AGES = [8, 9, 10, 11, 12, 13, 14, 15, 16, 17, 18, 19, 20, 21, 34, 35, 36, 39, 40, 44, 45, 64, 65, 99, 100, 104, 105, 109, 110]
+BOUNDARY_AGES = [0, 1, 7, 8, 9, 10, 11, 12, 13, 14, 15, 16, 17, 18, 19, 20, 21, 34, 35, 36, 39, 40, 44, 45, 64, 65, 99, 100, 104, 105, 109, 110]
 
 
 ISO_VARIANT = re.compile(r'^\s*(\d{4})-?(\d{2})-?(\d{2})(?:[T ]00:00(?::00(?:\.0+)?)?)?\s*$')
@@ -139,6 +139,13 @@ def match_dates(tier, rnd):
             out.add(D(y, mth, 1) - datetime.timedelta(days=1))
         for md in ((2, 28), (3, 1), (8, 30), (8, 31), (9, 1), (9, 30), (10, 1), (12, 31), (1, 1), (2, 14)):
             out.add(D(y, *md))
+    # the seasons around the real clock as well: a "current season" computed from today's date at import time would only
+    # disagree with the rule text for competitions near it
+    now = D.today()
+    for y in range(now.year - 1, now.year + 3):
+        for md in ((8, 30), (8, 31), (9, 1), (9, 2), (12, 31), (1, 1), (2, 28), (3, 1)):
+            out.add(D(y, *md))
+    out.add(now)
     out.add(D(2024, 2, 29))
     out.add(D(2000, 2, 29))
     out.add(D(2100, 2, 28))
